@@ -53,6 +53,7 @@ func TestVerifC09(t *testing.T) {
 		"timeouts are shortened only through contexts passed in (L2/L2b) or by the fake upstream giving up early (L1); no dae constant is edited",
 		"L4: the ControlPlane value carries only what handleTCPDnsFastPath reads (log, DnsController); stale entries come from upstream answers with TTL 0 (expired at once, inside the 60 s stale window); the schedule 'refresh goroutine runs after the connection's later queries' is produced through the LifecycleContext the embedder passes to NewDnsController (its Deadline() parks callers whose stack is rooted in the refresh goroutine while the gate is closed) - no code of dae is changed; replies are matched to the queries of their connection by (ID, question), in order first",
 		"L5: time is not waited for: the age of a cached answer is produced by publishing, in place of the entry dae stored, a copy whose Deadline / deadlineNano / packedResponseCreatedAt lie d seconds earlier (records and packed bytes are dae's own; copy made by the monitor, by CloneForReload, re-packed by the exported PrepackResponse, or without ready-made bytes as after a failed pack at insert); the verdict is the reply oracle only, which constructor or age class a reply went through is read from internal state and the upstream call log for coverage counters only; the virtual-clock walk repeats the two calls LookupDnsRespCache_ makes for an unexpired entry with a later `now` on a private copy and hands the bytes to writeCachedResponse",
+		"L5 class probe: queries are class IN except one class-CH query per L5 round for a (name,type) an IN query has just cached (judged; a reply that is right in ID, name and type but carries class IN is reported under the single signature reply-question-class-not-echoed/cache-hit, everything else under the ordinary signatures) and one class-CH query for an uncached pool name every other round (recorded only)",
 	)
 	if err := c09CheckMarkerInjective(); err != nil {
 		m.Inconclusive("marker not injective on the pool: %v", err)
